@@ -99,6 +99,24 @@ func runC10(r *mc.Run) {
 		})
 		r.SectionDone(mc.Section{Name: "raw/" + b.name, Evaluations: int64(done) * 3, Exhaustive: done == len(cases)})
 	}
+	for bi, b := range bases {
+		if bi > 0 && !r.Thorough() {
+			break
+		}
+		b := b
+		walk := sizeWalk(b.raw, b.reg)
+		done := r.Parallel(len(walk), func(i int) {
+			c := walk[i].build(b.name, b.raw)
+			if !r.Want(c.id) {
+				return
+			}
+			d := map[string]any{"field": walk[i].f.name, "value": walk[i].v, "baseline": b.name}
+			c10Call(r, c.id, "abi.QuoteToProto", d, func() error { _, e := abi.QuoteToProto(c.raw); return e })
+			c10Call(r, c.id, "verify.RawTdxQuote", d, func() error { return verify.RawTdxQuote(c.raw, b.w.Options(world.L0)) })
+			c10Call(r, c.id, "validate.RawTdxQuote", d, func() error { return validate.RawTdxQuote(c.raw, vopts) })
+		})
+		r.SectionDone(mc.Section{Name: "size-field-walk/" + b.name, Evaluations: int64(done) * 3, Exhaustive: done == len(walk)})
+	}
 	// degenerate raw inputs
 	for i, raw := range [][]byte{nil, {}, {4}, {4, 0}, make([]byte, 636), make([]byte, 1020), make([]byte, 70000)} {
 		raw := raw
